@@ -90,6 +90,8 @@ func setSecretBlob(k *asn1V2.Key, blob []byte) bool {
 	return false
 }
 
+const wholeRing = -2 // fKey value: the whole ring of f is signed for g's path
+
 type transplantCase struct {
 	cfg        kslab.Config
 	hist       repHistory
@@ -107,7 +109,7 @@ func runTransplant(c transplantCase, verbose bool) {
 	payload := replayT{Part: "bind", Mode: "transplant", Config: c.cfg, History: c.hist.ops, F: c.f, G: c.g, FLab: f.Label, GLab: g.Label, Offset: c.fKey, Mask: c.gKey}
 	run.States(1)
 	run.Traces(1)
-	if c.fKey < 0 {
+	if c.fKey == -1 {
 		before := readSlot(lab, g.Slot)
 		writeStored(lab, g.Path, signRing(gRing, gPath))
 		if err := lab.S.Reopen(); err != nil {
@@ -126,13 +128,23 @@ func runTransplant(c transplantCase, verbose bool) {
 		run.Transitions(len(c.hist.ops) + 2 + before.loads + after.loads)
 		return
 	}
-	if c.fKey >= len(fRing.Keys) || c.gKey >= len(gRing.Keys) {
-		ev.Fatalf("transplant: key position out of range")
-	}
-	blob := secretBlob(&fRing.Keys[c.fKey])
-	if blob == nil || !setSecretBlob(&gRing.Keys[c.gKey], blob) {
-		run.Class("bind:v2:transplant:skipped(destroyed-key-has-no-data)", 1)
-		return
+	if c.fKey == wholeRing {
+		// the whole ring of f - keys, current marker and the purpose label recorded INSIDE the ring -
+		// signed for g's path: the signature is valid there, only the binding of the key data to the
+		// place the ring is loaded from can stop it
+		if c.f == c.g {
+			return
+		}
+		gRing = fRing
+	} else {
+		if c.fKey >= len(fRing.Keys) || c.gKey >= len(gRing.Keys) {
+			ev.Fatalf("transplant: key position out of range")
+		}
+		blob := secretBlob(&fRing.Keys[c.fKey])
+		if blob == nil || !setSecretBlob(&gRing.Keys[c.gKey], blob) {
+			run.Class("bind:v2:transplant:skipped(destroyed-key-has-no-data)", 1)
+			return
+		}
 	}
 	writeStored(lab, g.Path, signRing(gRing, gPath))
 	if err := lab.S.Reopen(); err != nil {
@@ -146,6 +158,9 @@ func runTransplant(c transplantCase, verbose bool) {
 	if c.f == c.g {
 		rel = "same-ring-other-key-number"
 	}
+	if c.fKey == wholeRing {
+		rel = "whole-ring-signed-for-other-path"
+	}
 	base := "C07/bind/v2/key-data-transplant/" + rel + "/"
 	for _, p := range l.panics {
 		run.Violation(base+"panic", fmt.Sprintf("%s: encrypted key %d of %s transplanted into key %d of %s (re-signed): reading %s: %s", c.cfg.Name(), c.fKey+1, f.Label, c.gKey+1, g.Label, g.Slot, p), payload)
@@ -153,6 +168,11 @@ func runTransplant(c transplantCase, verbose bool) {
 	foreign := ""
 	for i, v := range l.vals {
 		if _, ok := own[string(v)]; ok {
+			continue
+		}
+		if c.fKey == wholeRing && l.parts[i] == "cur-public" {
+			// public keys are stored in the clear and are bound by the ring signature only; whoever can
+			// sign a ring (as the harness does here) can put any public key into it: not judged
 			continue
 		}
 		whose := "a value that is no key at all"
@@ -168,8 +188,12 @@ func runTransplant(c transplantCase, verbose bool) {
 	} else if foreign != "" {
 		outcome = "foreign-value-loaded"
 		payload.Seen = foreign
-		run.Violation(base+"loads-foreign-value", fmt.Sprintf("%s: the encrypted key data of key %d of %s, placed into key %d of %s and signed for that ring, loads there: %s. The key data is not bound to its ring (owner and purpose)",
-			c.cfg.Name(), c.fKey+1, f.Label, c.gKey+1, g.Label, foreign), payload)
+		what := fmt.Sprintf("the encrypted key data of key %d of %s, placed into key %d of %s and signed for that ring", c.fKey+1, f.Label, c.gKey+1, g.Label)
+		if c.fKey == wholeRing {
+			what = fmt.Sprintf("the whole ring of %s (its recorded purpose included), signed for the path of %s and stored there", f.Label, g.Label)
+		}
+		run.Violation(base+"loads-foreign-value", fmt.Sprintf("%s: %s, loads there: %s. The key data is not bound to its ring (owner and purpose)",
+			c.cfg.Name(), what, foreign), payload)
 	}
 	run.Class("bind:v2:transplant:"+rel+":"+outcome, 1)
 	run.Distinct(fmt.Sprintf("bind|v2|transplant|%s<-%s|%s|%s", g.Slot.Kind.Class(), f.Slot.Kind.Class(), rel, outcome))
@@ -201,6 +225,9 @@ func partTransplant() (cases int) {
 		for g := range files {
 			cs = append(cs, transplantCase{cfg, h, g, g, -1, 0})
 			for f := range files {
+				if f != g {
+					cs = append(cs, transplantCase{cfg, h, f, g, wholeRing, 0})
+				}
 				for gk := 0; gk < nKeys[g]; gk++ {
 					for fk := 0; fk < nKeys[f]; fk++ {
 						if f == g && fk == gk {
